@@ -257,9 +257,10 @@ pub fn run(tier: &str, seed: u64) -> Report {
   }
 
   // exclusion list: exact names and prefixes
-  let names = ["@scope/pkg", "@scope/other", "@std/path", "@std/fs", "@s/x"];
+  // look-alike scopes: a prefix `@std/` exempts `@std/…` only, not `@std-ext/…`, `@stdx/…` or `@stdlib/…`
+  let names = ["@scope/pkg", "@scope/other", "@std/path", "@std/fs", "@s/x", "@std-ext/path", "@stdx/path", "@stdlib/std", "@scope/p", "@sx/x"];
   let excl_sets: Vec<Vec<&str>> = vec![vec![], vec!["@scope/pkg"], vec!["@std/path", "@s/x"]];
-  let pref_sets: Vec<Vec<&str>> = vec![vec![], vec!["@std/"], vec!["@scope/p", "@s"]];
+  let pref_sets: Vec<Vec<&str>> = vec![vec![], vec!["@std/"], vec!["@scope/p", "@s"], vec!["@s/", "@scope/"]];
   for nm in names {
     for ex in &excl_sets {
       for pf in &pref_sets {
@@ -289,7 +290,7 @@ pub fn run(tier: &str, seed: u64) -> Report {
       }
     }
   }
-  report.exhaustive.push("NewestDependencyDateOptions::get_for_package on 5 names x 3 exact-exclusion sets x 3 prefix sets x date on/off".into());
+  report.exhaustive.push("NewestDependencyDateOptions::get_for_package on 10 names (look-alike scopes included) x 3 exact-exclusion sets x 4 prefix sets x date on/off".into());
   // graph level: whole resolution passes on flat registry worlds (model vs implementation, incl. the
   // cached-manifest probe memo and Reporter events) and the statement's tiers replayed in
   // resolution order on nested registry worlds
